@@ -15,13 +15,42 @@ def run(ck):
     ck.coq_build("Core")
     ck.extract("Core")
     s = rwsearch.Search(ck, exclude=rwsearch.CONFIG_OPS | rwsearch.SIG_OPS, chain=ck.n(2, 3))
+    ctx_stats = {"programs": 0, "queries": 0, "unsound": 0}
+
+    def context_contract(tag, src, p):
+        # the context every SMT-backed check assumes must not contradict the enclosing guards (harness/ctxcheck.py)
+        import ctxcheck
+        nq, bad = ctxcheck.check_proc(p, budget=ck.n(16, 40))
+        ctx_stats["programs"] += 1
+        ctx_stats["queries"] += nq
+        ck.case("context-contract", tag, nontrivial=nq > 0, sample={"program": tag, "queries": nq}, tag="ctx")
+        for b in bad:
+            ctx_stats["unsound"] += 1
+            ck.violation("context|unsound-%s-branch|%s" % (b["kind"], b["guard"]),
+                         {"program": tag, "source": src, **b},
+                         "the analysis context of '%s' lets exo prove '%s', the opposite of the enclosing guard '%s'"
+                         % (b["stmt"], b["proved"], b["guard"]))
+
+    s.on_program = context_contract
     findings = s.run(n_programs=ck.n(60, 600), budget_s=ck.n(110, 1300))
+    # second stream: aliasing stress (windows of windows, the same cell reached through two names) under the
+    # operations whose side conditions are location-set queries
+    s2 = rwsearch.Search(ck, ops={"reorder_stmts", "fission", "fuse", "lift_scope", "reorder_loops", "merge_writes",
+                                  "inline_window", "remove_loop", "add_loop", "lift_alloc", "sink_alloc", "unroll_loop",
+                                  "divide_loop", "cut_loop", "join_loops", "eliminate_dead_code", "reuse_buffer",
+                                  "delete_buffer", "fold_into_reduce", "lift_reduce_constant", "inline"},
+                         features={"windows": 1.0, "calls": 0.5, "config": 0.0, "divmod": 0.2}, chain=1,
+                         stream="aliasing-stress", max_cands=ck.n(40, 80))
+    s2.run_witnesses = lambda: None
+    findings += s2.run(n_programs=ck.n(70, 700), budget_s=ck.n(60, 700))
     for f in findings:
         if f.kind in ("value-mismatch", "config-mismatch", "uninit-result"):
             ck.violation(f.key, f.replay, "%s at %s: %s" % (f.op, f.site, f.detail))
     ck.cov["search"] = s.stats
+    ck.cov["search_aliasing_stress"] = s2.stats
+    ck.cov["context_contract"] = ctx_stats
     ck.cov["operation_crashes"] = s.crashes
-    ck.cov["inputs_run_in_reference_semantics"] = s.sc.runs
+    ck.cov["inputs_run_in_reference_semantics"] = s.sc.runs + s2.sc.runs
     ck.cov["comparisons_where_source_ran_to_completion"] = s.sc.nontrivial
     ck.cov["rule"] = ("generated Exo procedures (harness/progen.py, through the real @proc) x every applicable scheduling "
                       "primitive at sampled cursor positions/arguments (harness/sched.py), chains of accepted operations; each "
